@@ -315,6 +315,10 @@ func Yield() {}
 // the new goroutine may run before the statement that follows. Natively a no-op.
 func PreemptAtGo(on bool) {}
 
+// PreemptAtLocks (intrinsic): from now on the symbolic scheduler may switch goroutines before every lock
+// acquisition (Mutex.Lock, RWMutex.Lock/RLock), also an uncontended one. Natively a no-op.
+func PreemptAtLocks(on bool) {}
+
 // RaceReports (intrinsic): data races the symbolic executor saw on this path between accesses in the code
 // under test (happens-before detection over its scheduler); natively nil - a reported race is confirmed by
 // running the same harness under `go test -race`.
